@@ -161,6 +161,13 @@ package generator
 //@ func (g *Generator) write(path string, data string) (err error)
 //@   modifies fileContent
 //@   ensures[C12] @exactly imp(err == nil, sel(fileContent, pathId(path)) == data)
+// The BeginString every generated message is built with is the schema's type.major.minor
+//@ func (g *Generator) makeHeader() (res string)
+//@   requires g != nil && g.doc != nil && g.doc.Header != nil
+//@   call Sprintf#1:
+//@     witness decl = ret
+//@     assert[C12] @beginstring string(ret) == cat("var beginString = \"", g.doc.Type, ".", g.doc.Major, ".", g.doc.Minor, "\"")
+//@   ensures[C12] @declared hasPrefix(res, cat(decl, "\n"))
 //@ func (g *Generator) checkName(name string) (err error)
 //@   pure
 //@ func (g *Generator) Execute(outputDirPath string) (err error)
